@@ -378,6 +378,7 @@ Inductive grant_facts (s s' : rstate) (signer : Z) (tk : ticket) (uid camp : Z) 
   (gf_bets3 : r_bets gf_s3 = r_bets s)
   (gf_promaddr3 : r_promaddr gf_s3 = r_promaddr s)
   (gf_rewards3 : r_rewards gf_s3 = r_rewards s)
+  (gf_proms3 : r_proms gf_s3 = r_proms s)
   (gf_final : s' = set_rewards (set_camps gf_s3 (upd (fun x => cm_uid x =? camp)
                      (camp_pool gf_c (cm_total gf_c) (cm_spent gf_c + rc_total gf_rc) (cm_withdrawn gf_c)
                                 (cm_active gf_c) (cm_end gf_c)) (r_camps gf_s3)))
@@ -434,6 +435,7 @@ Proof.
   - rewrite H7, C6, G7. reflexivity.
   - rewrite H2, C2, G2. reflexivity.
   - rewrite H6, C5, G6. reflexivity.
+  - rewrite H3, C3, G3. reflexivity.
   - rewrite EA. reflexivity.
 Qed.
 
@@ -576,7 +578,7 @@ Lemma grant_reward_ok s signer tk uid camp hk ky rcv src peer bet s' og :
   grant_reward s signer tk uid camp hk ky rcv src peer bet = Some s' -> rwf s -> step_ok s s' og.
 Proof.
   intros H W. destruct (grant_reward_inv _ _ _ _ _ _ _ _ _ _ _ _ H) as
-    [c rc s3 puid p Fresh Find Act Win Tk Ky Spec Cap Prom CatCap Avail Pool Wf3 Camps3 Bets3 PA3 Rw3 Final].
+    [c rc s3 puid p Fresh Find Act Win Tk Ky Spec Cap Prom CatCap Avail Pool Wf3 Camps3 Bets3 PA3 Rw3 Pr3 Final].
   pose proof Find as Find'. unfold find_camp in Find'. apply findb_some_in in Find'. destruct Find' as (Hin & _).
   destruct (Wf3 W) as (X1 & X2 & X3 & X4).
   subst s'. split; [|split; [|split]].
@@ -762,7 +764,7 @@ Lemma grant_once s sg tk uid camp hk ky rcv src peer bet s' :
 Proof.
   intros H. apply rstep_grant_some in H. destruct H as (_ & H).
   destruct (grant_reward_inv _ _ _ _ _ _ _ _ _ _ _ _ H) as
-    [c rc s3 puid p Fresh Find Act Win Tk Ky Spec Cap Prom CatCap Avail Pool Wf3 Camps3 Bets3 PA3 Rw3 Final].
+    [c rc s3 puid p Fresh Find Act Win Tk Ky Spec Cap Prom CatCap Avail Pool Wf3 Camps3 Bets3 PA3 Rw3 Pr3 Final].
   split; [apply find_reward_none; exact Fresh|].
   subst s'. proj_simpl. rewrite Rw3.
   eexists. split; [|split; [|split]].
@@ -801,7 +803,7 @@ Lemma grant_guard s sg tk uid camp hk ky rcv src peer bet s' :
 Proof.
   intros H. apply rstep_grant_some in H. destruct H as (_ & H).
   destruct (grant_reward_inv _ _ _ _ _ _ _ _ _ _ _ _ H) as
-    [c rc s3 puid p Fresh Find Act Win Tk Ky Spec Cap Prom CatCap Avail Pool Wf3 Camps3 Bets3 PA3 Rw3 Final].
+    [c rc s3 puid p Fresh Find Act Win Tk Ky Spec Cap Prom CatCap Avail Pool Wf3 Camps3 Bets3 PA3 Rw3 Pr3 Final].
   exists c, {| rw_uid := uid; rw_creator := sg; rw_receiver := rcv; rw_camp := camp; rw_amt := rc_amt rc; rw_source := src |},
          puid, p.
   destruct Ky as (K1 & K2 & K3). destruct Prom as (P1 & P2).
@@ -915,3 +917,234 @@ Definition bonus_grant : rop :=
 
 Lemma bonus_ops_guard : Forall oguard (bonus_ops ++ [bonus_grant]).
 Proof. repeat constructor; cbn; lia. Qed.
+
+(* ---- promoters: one promoter per address (after /repo commit 6834bf6) ------------------------------------------------ *)
+Lemma findb_none_all {A} (f : A -> bool) l : findb f l = None -> forall x, In x l -> f x = false.
+Proof. unfold findb. apply find_none. Qed.
+
+Lemma upd_none_snoc {A} (f : A -> bool) v l : findb f l = None -> upd f v l = l ++ [v].
+Proof.
+  unfold findb. induction l as [|x r IH]; cbn [find upd app]; [reflexivity|].
+  destruct (f x); [discriminate|]. intros H. rewrite (IH H). reflexivity.
+Qed.
+
+Lemma findb_app_some {A} (f : A -> bool) l l' x : findb f l = Some x -> findb f (l ++ l') = Some x.
+Proof.
+  unfold findb. induction l as [|y r IH]; cbn [find app]; [discriminate|].
+  destruct (f y); [exact (fun H => H)|exact IH].
+Qed.
+
+Lemma findb_app_none {A} (f : A -> bool) l l' : findb f l = None -> findb f (l ++ l') = findb f l'.
+Proof.
+  unfold findb. induction l as [|y r IH]; cbn [find app]; [reflexivity|].
+  destruct (f y); [discriminate|exact IH].
+Qed.
+
+Lemma In_upd {A} (f : A -> bool) v l x : In x (upd f v l) -> x = v \/ In x l.
+Proof.
+  induction l as [|y r IH]; cbn [upd].
+  - intros [H|[]]. left. symmetry. exact H.
+  - destruct (f y).
+    + intros [H|H]; [left; symmetry; exact H|right; right; exact H].
+    + intros [H|H]; [right; left; exact H|]. destruct (IH H) as [E|E]; [left; exact E|right; right; exact E].
+Qed.
+
+Lemma In_upd_keep {A} (f : A -> bool) v l x : In x l -> f x = false -> In x (upd f v l).
+Proof.
+  induction l as [|y r IH]; cbn [upd]; [intros []|].
+  intros [H|H] Hf.
+  - subst y. rewrite Hf. left. reflexivity.
+  - destruct (f y); [right; exact H|right; apply IH; assumption].
+Qed.
+
+Lemma In_upd_new {A} (f : A -> bool) v l : In v (upd f v l).
+Proof.
+  induction l as [|y r IH]; cbn [upd]; [left; reflexivity|].
+  destruct (f y); [left; reflexivity|right; exact IH].
+Qed.
+
+Lemma map_upd_same {A B} (g : A -> B) (f : A -> bool) v l p : findb f l = Some p ->
+  (forall x, f x = true -> g x = g v) -> map g (upd f v l) = map g l.
+Proof.
+  unfold findb. intros H Hg. revert H. induction l as [|y r IH]; cbn [find upd map]; [discriminate|].
+  destruct (f y) eqn:E; intros H.
+  - cbn [map]. rewrite (Hg y E). reflexivity.
+  - cbn [map]. rewrite (IH H). reflexivity.
+Qed.
+
+Lemma NoDup_snoc {A} (l : list A) x : NoDup l -> ~ In x l -> NoDup (l ++ [x]).
+Proof.
+  intros Hl Hx. induction Hl as [|y r Hy Hr IH]; cbn [app].
+  - constructor; [intros []|constructor].
+  - constructor.
+    + intros Hin. apply in_app_or in Hin. destruct Hin as [Hin|[Hin|[]]]; [exact (Hy Hin)|].
+      apply Hx. left. symmetry. exact Hin.
+    + apply IH. intros Hin. apply Hx. right. exact Hin.
+Qed.
+
+Lemma NoDup_map_inj_in {A B} (g : A -> B) l x y : NoDup (map g l) -> In x l -> In y l -> g x = g y -> x = y.
+Proof.
+  induction l as [|z r IH]; cbn [map]; [intros _ []|].
+  intros Hnd Hx Hy Hg. inversion Hnd as [|? ? Hz Hr]; subst.
+  destruct Hx as [Hx|Hx], Hy as [Hy|Hy].
+  - congruence.
+  - subst z. exfalso. apply Hz. rewrite Hg. apply in_map. exact Hy.
+  - subst z. exfalso. apply Hz. rewrite <- Hg. apply in_map. exact Hx.
+  - apply IH; assumption.
+Qed.
+
+Lemma prom_of_addr_none l a : prom_of_addr l a = None -> findb (fun x => fst x =? a) l = None.
+Proof. unfold prom_of_addr. destruct (findb _ l); [discriminate|reflexivity]. Qed.
+
+Lemma prom_of_addr_some_in l a u : prom_of_addr l a = Some u -> In (a, u) l.
+Proof.
+  unfold prom_of_addr. destruct (findb (fun x => fst x =? a) l) as [[a' u']|] eqn:E; [|discriminate].
+  intros H. inv H. apply findb_some_in in E. destruct E as (Hin & Hf). cbn in Hf. apply Z.eqb_eq in Hf. subst a'. exact Hin.
+Qed.
+
+(* promoter uids are unique; an address has one by-address entry; the entry and the promoters' address lists agree *)
+Definition punique (s : rstate) : Prop :=
+  NoDup (map pm_uid (r_proms s)) /\ NoDup (map fst (r_promaddr s)) /\
+  (forall p a, In p (r_proms s) -> In a (pm_addrs p) -> prom_of_addr (r_promaddr s) a = Some (pm_uid p)) /\
+  (forall a u, In (a, u) (r_promaddr s) -> exists p, In p (r_proms s) /\ pm_uid p = u /\ In a (pm_addrs p)).
+
+Lemma create_promoter_punique s sg tk uid conf s' : create_promoter s sg tk uid conf = Some s' -> punique s -> punique s'.
+Proof.
+  unfold create_promoter. intros H (U1 & U2 & U3 & U4).
+  destruct (negb (rticket_ok s tk)); [discriminate|].
+  destruct (find_prom (r_proms s) uid) eqn:EF; [discriminate|].
+  destruct (uid <? 0); [discriminate|]. destruct (negb (conf_valid [] conf)); [discriminate|].
+  destruct (prom_of_addr (r_promaddr s) sg) eqn:EP; [discriminate|]. inv H.
+  pose proof (prom_of_addr_none _ _ EP) as EN. unfold find_prom in EF.
+  unfold punique. proj_simpl. rewrite (upd_none_snoc _ _ _ EN).
+  split; [|split; [|split]].
+  - rewrite map_app. cbn [map]. apply NoDup_snoc; [exact U1|].
+    intros Hin. apply in_map_iff in Hin. destruct Hin as (q & Hq & Hin).
+    pose proof (findb_none_all _ _ EF q Hin) as Hf. cbn beta in Hf. apply Z.eqb_neq in Hf. contradiction.
+  - rewrite map_app. cbn [map fst]. apply NoDup_snoc; [exact U2|].
+    intros Hin. apply in_map_iff in Hin. destruct Hin as (q & Hq & Hin).
+    pose proof (findb_none_all _ _ EN q Hin) as Hf. cbn beta in Hf. apply Z.eqb_neq in Hf. contradiction.
+  - intros p a Hp Ha. apply in_app_or in Hp. destruct Hp as [Hp|[Hp|[]]].
+    + pose proof (U3 p a Hp Ha) as H3. unfold prom_of_addr in *.
+      destruct (findb (fun x => fst x =? a) (r_promaddr s)) as [x|] eqn:E; [|discriminate].
+      rewrite (findb_app_some _ _ _ _ E). exact H3.
+    + subst p. cbn [pm_addrs pm_uid] in *. destruct Ha as [Ha|[]]. subst a.
+      unfold prom_of_addr. rewrite (findb_app_none _ _ _ EN). unfold findb. cbn [find fst]. rewrite Z.eqb_refl. reflexivity.
+  - intros a u Hin. apply in_app_or in Hin. destruct Hin as [Hin|[Hin|[]]].
+    + destruct (U4 a u Hin) as (p & Hp & Hu & Ha). exists p. split; [apply in_or_app; left; exact Hp|split; assumption].
+    + inv Hin. eexists. split; [apply in_or_app; right; left; reflexivity|]. cbn. split; [reflexivity|left; reflexivity].
+Qed.
+
+Lemma set_promoter_conf_punique s sg tk uid conf s' : set_promoter_conf s sg tk uid conf = Some s' -> punique s -> punique s'.
+Proof.
+  unfold set_promoter_conf. intros H (U1 & U2 & U3 & U4).
+  destruct (uid <? 0); [discriminate|].
+  destruct (find_prom (r_proms s) uid) as [p|] eqn:EF; [|discriminate].
+  destruct (negb (zmem sg (pm_addrs p))); [discriminate|].
+  destruct (negb (rticket_ok s tk)); [discriminate|]. destruct (negb (conf_valid [] conf)); [discriminate|]. inv H.
+  unfold find_prom in EF. pose proof (findb_some_in _ _ _ EF) as (Hpin & Hpf). cbn beta in Hpf. apply Z.eqb_eq in Hpf.
+  set (p' := {| pm_uid := pm_uid p; pm_creator := pm_creator p; pm_addrs := pm_addrs p; pm_conf := conf |}).
+  unfold punique. proj_simpl.
+  split; [|split; [|split]].
+  - rewrite (map_upd_same pm_uid _ p' _ p EF); [exact U1|].
+    intros x Hx. apply Z.eqb_eq in Hx. cbn. congruence.
+  - exact U2.
+  - intros q a Hq Ha. apply In_upd in Hq. destruct Hq as [Hq|Hq].
+    + subst q. cbn [pm_addrs pm_uid p'] in *. exact (U3 p a Hpin Ha).
+    + exact (U3 q a Hq Ha).
+  - intros a u Hin. destruct (U4 a u Hin) as (q & Hq & Hu & Ha).
+    destruct (pm_uid q =? uid) eqn:E.
+    + apply Z.eqb_eq in E. assert (q = p) by (apply (NoDup_map_inj_in pm_uid _ _ _ U1 Hq Hpin); congruence). subst q.
+      exists p'. split; [apply In_upd_new|]. cbn. split; assumption.
+    + exists q. split; [apply In_upd_keep; assumption|split; assumption].
+Qed.
+
+(* every other operation leaves the promoter tables alone *)
+Lemma rstep_proms_frame s o :
+  match o with RCreatePromoter _ _ _ _ | RSetPromoterConf _ _ _ _ => True
+  | _ => r_proms (fst (rstep s o)) = r_proms s /\ r_promaddr (fst (rstep s o)) = r_promaddr s end.
+Proof.
+  destruct o; cbn [rstep]; try exact I; unfold signed;
+    try (match goal with |- context [signer_ok ?a] => destruct (signer_ok a); [|split; reflexivity] end).
+  - split; reflexivity.
+  - split; reflexivity.
+  - destruct (create_campaign s signer tk uid total prom start end_ cat ty atype ra active cap constr) eqn:E; [|split; reflexivity].
+    cbn [rtx fst]. unfold create_campaign in E.
+    destruct ((uid <? 0) || (total <=? 0)); [discriminate|].
+    destruct (find_camp (r_camps s) uid); [discriminate|].
+    destruct (negb (rticket_ok s tk)); [discriminate|].
+    destruct ((start <? 0) || (end_ <? 0) || (cap <? 0)); [discriminate|].
+    destruct (prom_of_addr (r_promaddr s) prom); [|discriminate].
+    destruct (authorize s signer prom GK_CREATE total); [|discriminate].
+    destruct ra as [ra|]; [|discriminate].
+    destruct (rp_unlock ra <? 0); [discriminate|].
+    destruct (negb (payload_valid (r_now s) start end_ cat ty atype ra)); [discriminate|].
+    destruct (total <? opt_z (rp_main ra) + opt_z (rp_sub ra)); [discriminate|].
+    destruct (PREC <=? opt_z (rp_mainpct ra) + opt_z (rp_subpct ra)); [discriminate|].
+    destruct (negb (validate_campaign cat ty atype ra constr)); [discriminate|].
+    destruct (fund_pool (r_bank s) prom total); [|discriminate]. inv E. split; reflexivity.
+  - destruct (update_campaign s signer tk uid topup end_ active) eqn:E; [|split; reflexivity].
+    cbn [rtx fst]. unfold update_campaign in E. dmatch E; inv E; split; reflexivity.
+  - destruct (withdraw_funds s signer tk uid amount prom) eqn:E; [|split; reflexivity].
+    cbn [rtx fst]. unfold withdraw_funds in E. dmatch E; inv E; split; reflexivity.
+  - destruct (grant_reward s signer tk uid camp haskyc ky receiver source peer betuid) eqn:E; [|split; reflexivity].
+    cbn [rtx fst]. destruct (grant_reward_inv _ _ _ _ _ _ _ _ _ _ _ _ E) as
+      [c rc s3 puid p Fresh Find Act Win Tk Ky Spec Cap Prom CatCap Avail Pool Wf3 Camps3 Bets3 PA3 Rw3 Pr3 Final].
+    subst r. proj_simpl. split; assumption.
+  - destruct (do_rgrant s granter grantee kind limit exp) eqn:E; [|split; reflexivity].
+    cbn [rtx fst]. unfold do_rgrant in E. dmatch E; inv E; split; reflexivity.
+  - destruct (do_rrevoke s granter grantee kind) eqn:E; [|split; reflexivity].
+    cbn [rtx fst]. unfold do_rrevoke in E. dmatch E; inv E; split; reflexivity.
+  - destruct (sync_bet s uid creator amount result main) eqn:E; [|split; reflexivity].
+    cbn [rtx fst]. unfold sync_bet in E. dmatch E; inv E; split; reflexivity.
+  - destruct (sync_bal s a v) eqn:E; [|split; reflexivity].
+    cbn [rtx fst]. unfold sync_bal in E. dmatch E; inv E; split; reflexivity.
+  - destruct (sub_create s signer owner locks) eqn:E; [|split; reflexivity].
+    cbn [rtx fst]. unfold sub_create in E.
+    destruct (negb (addr_valid owner)); [discriminate|]. destruct (existsb _ locks); [discriminate|].
+    destruct (create_sub s signer owner locks) as [[s1 sa]|] eqn:EC; [|discriminate]. inv E.
+    unfold create_sub in EC. destruct (existsb _ locks); [discriminate|].
+    destruct (sub_by_owner (r_subs s) owner); [discriminate|].
+    destruct (rpay (r_bank s) signer (SUBBASE + r_subnext s) (zsum (map snd locks))); [|discriminate].
+    inv EC. split; reflexivity.
+  - destruct (do_rsend s from to amt) eqn:E; [|split; reflexivity].
+    cbn [rtx fst]. unfold do_rsend in E. dmatch E; inv E; split; reflexivity.
+Qed.
+
+Lemma punique_frame s s' : r_proms s' = r_proms s -> r_promaddr s' = r_promaddr s -> punique s -> punique s'.
+Proof. unfold punique. intros -> ->. exact (fun H => H). Qed.
+
+Lemma rstep_punique s o : punique s -> punique (fst (rstep s o)).
+Proof.
+  intros U. pose proof (rstep_proms_frame s o) as F.
+  destruct o; try (destruct F as (F1 & F2); apply (punique_frame _ _ F1 F2 U)); cbn [rstep]; unfold signed;
+    (destruct (signer_ok signer); [|exact U]).
+  - destruct (create_promoter s signer tk uid conf) eqn:E; [|exact U]. eapply create_promoter_punique; eassumption.
+  - destruct (set_promoter_conf s signer tk uid conf) eqn:E; [|exact U]. eapply set_promoter_conf_punique; eassumption.
+Qed.
+
+Lemma rrun_punique ops : forall s, punique s -> punique (rrun s ops).
+Proof.
+  induction ops as [|o r IH]; intros s U; [exact U|]. rewrite rrun_cons. apply IH. apply rstep_punique. exact U.
+Qed.
+
+Lemma rinit_punique bk t l : punique (rinit bk t l).
+Proof.
+  unfold punique. cbn. split; [constructor|]. split; [constructor|]. split; [intros p a []|intros a u []].
+Qed.
+
+(* readable form: over every history from genesis, an address has exactly the promoter its by-address entry names,
+   and two promoters never share an address *)
+Lemma promoter_unique bk t l ops : let s := rrun (rinit bk t l) ops in
+  NoDup (map pm_uid (r_proms s)) /\ NoDup (map fst (r_promaddr s)) /\
+  (forall a u, prom_of_addr (r_promaddr s) a = Some u <-> exists p, In p (r_proms s) /\ pm_uid p = u /\ In a (pm_addrs p)) /\
+  (forall p q a, In p (r_proms s) -> In q (r_proms s) -> In a (pm_addrs p) -> In a (pm_addrs q) -> p = q).
+Proof.
+  intros s. destruct (rrun_punique ops _ (rinit_punique bk t l)) as (U1 & U2 & U3 & U4). fold s in U1, U2, U3, U4.
+  split; [exact U1|]. split; [exact U2|]. split.
+  - intros a u. split.
+    + intros H. apply U4. apply prom_of_addr_some_in. exact H.
+    + intros (p & Hp & Hu & Ha). rewrite <- Hu. apply U3; assumption.
+  - intros p q a Hp Hq Ha Hb. apply (NoDup_map_inj_in pm_uid _ _ _ U1 Hp Hq).
+    pose proof (U3 p a Hp Ha) as E1. pose proof (U3 q a Hq Hb) as E2. congruence.
+Qed.
